@@ -330,11 +330,12 @@ class MpReachNLRI(Attribute):
                         data=value
                     )
             elif safi == safn.SAFNUM_UNICAST:
+                # the next hop field holds one or two IPv6 addresses (RFC 2545), 16 octets each
                 nexthop_len = 16
-                nexthop_bin = netaddr.IPAddress(value['nexthop']).packed
+                nexthop_bin = netaddr.IPAddress(value['nexthop'], 6).packed
                 if value.get('linklocal_nexthop'):
                     nexthop_len *= 2
-                    nexthop_bin += netaddr.IPAddress(value['linklocal_nexthop']).packed
+                    nexthop_bin += netaddr.IPAddress(value['linklocal_nexthop'], 6).packed
 
                 nlri_bin = IPv6Unicast.construct(nlri_list=value['nlri'])
 
